@@ -3,7 +3,7 @@
 (* C13 TV mode.  Every event of trace.ndjson is one call                   *)
 (*     INPUT | try F(ARGS) catch .                                         *)
 (* executed by real fq in an isolated worker (harness/c13):                *)
-(*   [f, fn, arity, pos, vals, outcome, msg]                               *)
+(*   <<f, fn, arity, pos, vals, outcome>>                                  *)
 (* f indexes c13_fns.ndjson (the inventory the harness read from the       *)
 (* running program: Go-registered functions and the definitions of every   *)
 (* bundled jq module), vals index c13_pool.ndjson.  Events are independent:*)
@@ -50,7 +50,7 @@ Consumed == TLCGet("stats").diameter - 1 = Len(Trace)
 
 WellFormedEvents == { i \in 1 .. Len(Trace) : C13WellFormed(Trace[i], Inv, NPool) }
 SinglesSeen == UNION { C13SinglesOf(Trace[i], Pool) : i \in WellFormedEvents }
-PairsSeen   == UNION { C13PairsOf(Trace[i], Pool) : i \in { j \in WellFormedEvents : Trace[j].arity \in 1 .. 2 } }
+PairsSeen   == UNION { C13PairsOf(Trace[i], Pool) : i \in { j \in WellFormedEvents : EvArity(Trace[j]) \in 1 .. 2 } }
 MissingSingles == C13SingleObligations(Inv, Pool) \ SinglesSeen
 MissingPairs   == IF WantPairs THEN C13PairObligations(Inv, Pool) \ PairsSeen ELSE {}
 
